@@ -129,7 +129,7 @@ pub async fn accept_loop<F>(
                 conn_handler.clone()(permit.new_sub(), token, stream, addr);
             }
             Some(AcceptResult::TooManyOpenFiles) => {
-                error("too many open files, unable to accept connection", ()).unwrap();
+                let _ = error("too many open files, unable to accept connection", ());
                 safina::timer::sleep_for(Duration::from_millis(500)).await;
             }
             Some(AcceptResult::Err(e)) => {
